@@ -4,4 +4,4 @@ Extraction Language OCaml.
 Extraction "c05_model.ml"
   prelude_byte_of_N prelude_N_of_byte prelude_Z_of_N prelude_Z_opp prelude_nat_of_N prelude_N_of_nat
   cs_encode read_cs serialize build_raw build_id deserialize observe serialize_segwit
-  tx_size base_size in_size out_size cache_run.
+  tx_size base_size in_size out_size cache_run cache_run_parsed.
